@@ -25,7 +25,7 @@ Cmds ==
        {<<L_set, kk, va>>, <<L_set, kk, vb, L_keepttl>>, <<L_set, kk, va, L_ex, B(1)>>, <<L_set, kk, va, L_ex, B(2)>>,
         <<L_set, kk, va, L_px, B(1500)>>, <<L_set, kk, va, L_xx, L_ex, B(1)>>, <<L_set, kk, vb, L_nx>>, <<L_setex, kk, B(1), va>>,
         <<L_set, kk, va, L_exat, <<1>>>>, <<L_set, kk, va, L_ex, B(0)>>}      \* EXAT argument <<1>> is a placeholder: the driver sends now+1
-  \cup {<<L_expire, kk, B(n)>> \o o : n \in {1, 2}, o \in ExpOpts} \cup {<<L_expire, kk, B(0)>>, <<L_expire, kk, B(-1)>>}
+  \cup {<<L_expire, kk, B(n)>> \o o : n \in {1, 2, 0, -1}, o \in ExpOpts}    \* non-positive times with options too: a vetoed one must change nothing (seed C06-r3)
   \cup {<<L_persist, kk>>, <<L_ttl, kk>>, <<L_get, kk>>, <<L_exists, kk>>, <<L_del, kk>>, <<L_strlen, kk>>, <<L_type, kk>>, <<L_keys, L_star>>,
         <<L_append, kk, vb>>, <<L_setnx, kk, vb>>, <<L_getrange, kk, B(0), B(-1)>>, <<L_mget, kk, k2>>}
   \cup (IF Deep THEN {<<L_rename, kk, k2>>, <<L_rename, k2, kk>>, <<L_ttl, k2>>, <<L_get, k2>>, <<L_mset, kk, va, k2, vb>>, <<L_incr, kk>>} ELSE {})
